@@ -101,6 +101,63 @@ def limitind_C04(v, sc):
                    "abstraction LimitInd.tla (Apalache); twins: " + "; ".join(t[3] for t in LIMITIND_TWINS) + " - each rejected")
 
 
+# ------------------------------------------------------------------------------------------------ U3 fan-out: several disciplines, one input channel
+def shared_limit(pid, v, sc, binary):
+    """several limit disciplines fed from ONE input channel (harness/limith/shared_test.go), virtual time; judged by Mon_LimitShared.tla:
+    C04 per discipline (its own cumulative bound), C12 jointly (every element on exactly one output, each output increasing, all outputs close)"""
+    sub = os.path.join(sc, "shared")
+    os.makedirs(sub, exist_ok=True)
+    stage_specs(sub)
+    rc, out, wall = run_test(binary, "TestRecordSharedLimit$", env=dict(OUT_DIR=sub, SHARED_RUNS=16 if v.tier == "quick" else 400), timeout=900)
+    if rc != 0 or "SHAREDLIMIT runs=" not in out:
+        raise Inconclusive("shared-input limit recorder died\n" + out[-3000:])
+    recs = [json.loads(l) for l in open(os.path.join(sub, "limit_shared.ndjson"))]
+
+    def judge(d, n):
+        res = tlc_here(d, "Mon_LimitShared", cfg="Mon_LimitShared.cfg", workers=1, timeout=600)
+        if res.crashed or not res.finished and not res.inv_violated or res.distinct < n + 1:
+            raise Inconclusive("Mon_LimitShared did not consume the whole log (%d records, %d states)\n%s" % (n, res.distinct, res.out[-2000:]))
+        sets = re.findall(r"/\\ viol = \{(.*)\}", res.out) if res.inv_violated else []
+        found = [(int(a), b) for a, b in re.findall(r'<<(\d+), "(C\d+)">>', sets[-1])] if sets else []
+        if res.inv_violated and not found:
+            raise Inconclusive("Mon_LimitShared rejects the log but the findings cannot be read\n" + res.out[-2000:])
+        return res, found
+    res, found = judge(sub, len(recs))
+    mine = sorted({tr for tr, p in found if p == pid})
+    by_tr = {}
+    for r in recs:
+        by_tr.setdefault(r["tr"], []).append(r)
+    for tr in mine[:3]:
+        c = by_tr[tr][0]
+        v.violation("%s: %d limit disciplines (%d per %d units each) fed from one input channel: Mon_LimitShared rejects shared-input trace %d (%s)"
+                    % (pid, c["n"], c["Q"], c["I"], tr, "a discipline emitted more than Quantity*(floor(t/Interval)+1) elements by some instant" if pid == "C04"
+                       else "an element lost, duplicated or out of order on an output, or an output left open"), dict(kind="limit-shared", trace=by_tr[tr][:400]))
+    guard = "skipped"
+    if not found and pid == "C12":   # binding / vacuity guard: the same log without one delivered element must be rejected for exactly that trace
+        idx = max(i for i, r in enumerate(recs) if r["ev"] == "O")
+        sub2 = os.path.join(sub, "corrupt")
+        os.makedirs(sub2, exist_ok=True)
+        stage_specs(sub2)
+        with open(os.path.join(sub2, "limit_shared.ndjson"), "w") as f:
+            for i, r in enumerate(recs):
+                if i != idx:
+                    f.write(json.dumps(r) + "\n")
+        res2, found2 = judge(sub2, len(recs) - 1)
+        if found2 != [(recs[idx]["tr"], "C12")]:
+            raise Inconclusive("Mon_LimitShared does not reject a log with one lost element (vacuity guard): %r" % (found2,))
+        guard = "one delivered element removed: rejected (C12) for exactly that trace"
+    tight, cnt, cfg = 0, {}, None
+    for r in recs:
+        if r["ev"] == "Reset":
+            cnt, cfg = {}, r
+        elif r["ev"] == "O":
+            cnt[r["d"]] = cnt.get(r["d"], 0) + 1
+            tight += cnt[r["d"]] == cfg["Q"] * (r["now"] // cfg["I"] + 1)
+    v.cov["shared_input"] = dict(traces=len(by_tr), disciplines=sum(t[0]["n"] for t in by_tr.values()), elements=sum(1 for r in recs if r["ev"] == "O"),
+                                 emissions_exactly_at_the_cumulative_bound=tight, monitor_states=res.distinct, violations=len(mine),
+                                 other_property_findings=sorted({p for _, p in found if p != pid}), corruption_guard=guard, wall_s=round(wall, 1))
+
+
 # ------------------------------------------------------------------------------------------------ U2 schedules from TLC
 def load_graph(path):
     """-dump dot,actionlabels -> (init nodes {id: cfg}, edges [(src, dst, label)])"""
@@ -345,6 +402,7 @@ def run_limit(pid, tier):
             limitind_C04(v, sc)
         binary = os.path.join(sc, "limith.test")
         build_test("limith", binary, race=True)
+        v.attempt("shared-input part", shared_limit, pid, v, sc, binary)
         rng = random.Random(seeds[0] * 1000003 + (4 if pid == "C04" else 12))
         scheds, geninfo = tlc_schedules(tier, sc, v, rng, limit=900 if tier == "quick" else 12000)
         scs = list(scheds)
